@@ -161,10 +161,11 @@ def public_replay_factory(n, use_backups, batch_size, n_o, n_d, n_p):
 
         outcomes = [model[f"o{k}"] for k in range(n_o)]
         dts = [model[f"d{k}"] for k in range(n_d)]
-        attempts = 12
+        perms = [model[f"p{k}"] for k in range(n_p)]
+        attempts = 3
         seen = []
         for attempt in range(attempts):
-            st = {"oi": 0, "ti": 0, "clock": 0.0, "subs": [], "nfut": 0, "exhausted": False}
+            st = {"oi": 0, "ti": 0, "pi": 0, "clock": 0.0, "subs": [], "nfut": 0, "exhausted": False}
 
             class RFut:
                 pass
@@ -201,7 +202,17 @@ def public_replay_factory(n, use_backups, batch_size, n_o, n_d, n_p):
                                 f.set_result((meta[id(f)]["inp"], {}))
                             elif o == 2:
                                 f.set_exception(sched.TaskError(meta[id(f)]["inp"], meta[id(f)]["uid"]))
-                        return await real_asyncio.wait(pending, return_when=return_when, timeout=0.01)
+                        done, rest = await real_asyncio.wait(pending, return_when=return_when, timeout=0.01)
+                        # a set has no order: iterate the really-done futures in the order the model chose
+                        order = sorted(done, key=lambda f: meta[id(f)]["uid"])
+                        out = []
+                        while order:
+                            k = 0
+                            if len(order) > 1 and st["pi"] < len(perms):
+                                k = perms[st["pi"]] % len(order)
+                                st["pi"] += 1
+                            out.append(order.pop(k))
+                        return sched.FinishedSet(out), rest
 
                 class TimeProxy:
                     @staticmethod
